@@ -126,6 +126,20 @@ def work_history(task):
         if len(acc.fails) > before:
             (c, m, sg) = acc.fails[-1]
             acc.fails[-1] = (dict(c, kind="history", order=order), f"in a sequence of calls ({order}): " + m, sg)
+    # the SAME array object stacked with different windows, back and forth
+    for (T, N) in ((12, 2), (9, 1), (15, 3)):
+        data = distinct_cells(T, N, salt=5)
+        db = u64(data)
+        for W in (3, 2, 1, 2, 5, 3):
+            acc.n += 1
+            out = dp.stack_training_data(data, W)
+            ok = isinstance(out, np.ndarray) and out.shape == (T - W + 1, N * W) and all(
+                np.array_equal(u64(out)[:, j * N:(j + 1) * N], db[j:j + T - W + 1, :]) for j in range(W))
+            if not ok:
+                acc.fail({"kind": "history", "order": order, "same_object": True, "T": T, "N": N, "W": W},
+                         f"the same {T}x{N} array stacked again with window {W} (after other windows): wrong result "
+                         f"(shape {getattr(out, 'shape', None)})")
+                break
     acc.sample({"kind": "history", "order": order, "calls": len(triples)})
     return acc.result()
 
